@@ -57,7 +57,7 @@ class Contract(object):
                  doc="", fresh_result=None, allow_raises=None, with_items=None,
                  spec_only=False, opaque_calls=None, strict_raises=True,
                  pos_params=None, vararg=None, kwarg=None, defaults=None,
-                 frame_exempt=None, assume=None, globals=None, ghost_stores=None):
+                 frame_exempt=None, assume=None, globals=None, ghost_stores=None, fields=None):
         self.fid = fid
         self.params = dict(params or {})        # name -> type string
         self.requires = _labelled(requires)
@@ -85,6 +85,9 @@ class Contract(object):
         self.lookup_raises = lookup_raises
         self.assert_raises = assert_raises
         self.locals = dict(locals or {})
+        # "Class.field" -> type string: narrower static type of a field inside this function only (the state this
+        # function is called in); every read assumes it, so state the same as a `requires` clause
+        self.fields = dict(fields or {})
         self.doc = doc
         self.fresh_result = fresh_result        # class name: result is a freshly allocated object
         self.allow_raises = allow_raises        # exception classes allowed to escape without `raises` entry
@@ -139,8 +142,22 @@ def virtual_class(name, bases, members):
     VIRTUAL[name] = (list(bases), list(members))
 
 
+SHAPE_CONFLICTS = []
+
+
 def shape(cls, **fields):
-    SHAPES.setdefault(cls, {}).update(fields)
+    """Declare field types of a class.  Declarations of several contract modules are merged; a field declared twice
+    must get the same type ("any" may be refined once, a refined type is never widened back to "any")."""
+    cur = SHAPES.setdefault(cls, {})
+    for f, t in fields.items():
+        old = cur.get(f)
+        if old is None or old == t or old == "any":
+            cur[f] = t
+        elif t == "any":
+            pass                                    # keep the more precise earlier declaration
+        else:
+            SHAPE_CONFLICTS.append((cls, f, old, t))
+            cur[f] = t
 
 
 def trusted_note(key, text):
